@@ -45,7 +45,11 @@ func genExArg(r *rand.Rand) V {
 	case 1:
 		return V{T: 's', S: ""}
 	case 2:
-		return V{T: 'K', Form: []string{"n", "a", "as", "p"}[r.Intn(4)], Cfg: Cfg{Kind: 1 + r.Intn(4)}, Xs: []V{{T: 's', S: "x"}, {T: 'i', I: 2}}}
+		k := V{T: 'K', Form: []string{"n", "a", "as", "p"}[r.Intn(4)], Cfg: Cfg{Kind: 1 + r.Intn(4)}, Xs: []V{{T: 's', S: "x"}, {T: 'i', I: 2}}}
+		if r.Intn(3) == 0 {
+			k.Xs = nil // an initialised but empty Stack is a Stack
+		}
+		return k
 	case 3:
 		return V{T: 'g', ID: 2, S: "strg"}
 	case 4:
